@@ -256,51 +256,196 @@ theorem closest_range_addr_is_xor_filter (target : Addr) (ps : List APeer) (num 
   unfold calcClosestAddr
   cases num <;> simp only [hf]
 
-/-- `sort_peers_by_key` over addresses: ascending in the XOR metric, a sub-permutation of the input, exactly the
-requested number when that many are known (and at least `CLOSE_GROUP_SIZE` are), and every peer left out is at least
-as far as every peer returned. -/
+/-! ### The address-level definitions ARE the number-level ones over the mapped distances
+
+`toPeer target` sends a peer `(id, address)` to `(id, XOR distance of the two SHA-256 digests)`. Every address-level
+decision commutes with it, so the whole number-level specification (`sort_is_closest_prefix`, `inRange_is_filter`,
+`closest_range_preferred`, `closest_num_sorted_prefix`) transfers to what the code computes from addresses. The driver
+runs the `*Addr` definitions on the addresses of the preceding `bind` line. -/
+
+theorem toPeer_snd (t : Addr) (p : APeer) : (toPeer t p).2 = xorDist t p.2 := rfl
+
+theorem convDist_eq_distSha (t p : Addr) : convDist t p = distSha t p := convert_is_identity _ (sha_dist_lt t p)
+
+/-- the decorate–sort–undecorate of `sort_peers_by_key` is the merge sort of the peers by their XOR distance -/
+theorem sortedAddr_eq (t : Addr) (ps : List APeer) :
+    ((ps.map (fun p => (p, distSha t p.2))).mergeSort (fun a b => decide (a.2 ≤ b.2))).map (·.1)
+      = ps.mergeSort (leAddr t) := by
+  rw [← List.map_mergeSort (r := leAddr t) (f := fun p => (p, distSha t p.2))]
+  · rw [List.map_map]
+    exact List.map_id' _
+  · intro a _ b _; rfl
+
+theorem sortByDist_map (t : Addr) (ps : List APeer) :
+    sortByDist (ps.map (toPeer t)) = (ps.mergeSort (leAddr t)).map (toPeer t) := by
+  unfold sortByDist
+  rw [← List.map_mergeSort (r := leAddr t)]
+  intro a _ b _; rfl
+
+/-- `sort_peers_by_key` over addresses = `sortPeersByKey` over the mapped XOR distances (same error case, same peers in
+the same order) -/
+theorem sort_addr_is_sort_of_distances (t : Addr) (ps : List APeer) (n : Nat) :
+    (sortPeersByKeyAddr t ps n).map (List.map (toPeer t)) = sortPeersByKey (ps.map (toPeer t)) n := by
+  unfold sortPeersByKeyAddr sortPeersByKey
+  rw [sortedAddr_eq, sortByDist_map, List.length_map]
+  split <;> simp [List.map_take]
+
+theorem filter_addr_is_filter_of_distances (t : Addr) (ps : List APeer) (le : Bool) (r : Nat) :
+    (ps.filter (fun p => within le (convDist t p.2) r)).map (toPeer t)
+      = (ps.map (toPeer t)).filter (fun p => within le p.2 r) := by
+  rw [List.filter_map]
+  congr 1
+  apply List.filter_congr
+  intro p _
+  show within le (convDist t p.2) r = within le (toPeer t p).2 r
+  rw [convDist_eq_distSha]; rfl
+
+/-- `get_peers_in_range` over addresses = `getPeersInRange` over the mapped XOR distances -/
+theorem inRange_addr_is_inRange_of_distances (t : Addr) (ps : List APeer) (r : Nat) :
+    (getPeersInRangeAddr t ps r).map (toPeer t) = getPeersInRange (ps.map (toPeer t)) r :=
+  filter_addr_is_filter_of_distances t ps inRangeLe r
+
+/-- `calculate_get_closest_peers` over addresses (range branch, count branch, neither) = `calcClosest` over the mapped
+XOR distances -/
+theorem closest_addr_is_closest_of_distances (t : Addr) (ps : List APeer) (num r : Option Nat) :
+    (calcClosestAddr t ps num r).map (toPeer t) = calcClosest (ps.map (toPeer t)) num r := by
+  cases r with
+  | some r => cases num <;> exact filter_addr_is_filter_of_distances t ps closestRangeLe r
+  | none =>
+    cases num with
+    | none => rfl
+    | some n =>
+      show List.map (toPeer t) (List.take n _) = List.take n (sortByDist _)
+      rw [sortedAddr_eq, sortByDist_map, List.map_take]
+
+theorem leAddr_sorted (t : Addr) (ps : List APeer) :
+    (ps.mergeSort (leAddr t)).Pairwise (fun a b => xorDist t a.2 ≤ xorDist t b.2) := by
+  have := List.pairwise_mergeSort (le := leAddr t)
+    (fun a b c hab hbc => by simp only [leAddr, decide_eq_true_eq] at *; omega)
+    (fun a b => by simp only [leAddr, Bool.or_eq_true, decide_eq_true_eq]; omega) ps
+  exact this.imp (fun {a b} h => (of_decide_eq_true h : distSha t a.2 ≤ distSha t b.2))
+
+/-- what "the `n` nearest of `ps`, ascending" means over addresses: `r` together with some `rest` is a permutation of
+`ps` (so `r` is a sub-multiset: no peer invented, none repeated beyond its multiplicity), `r` has `min n |ps|` elements
+in ascending XOR distance, and every peer left out is at least as far as every peer returned -/
+def NearestAscending (t : Addr) (ps : List APeer) (n : Nat) (r : List APeer) : Prop :=
+  ∃ rest, (r ++ rest).Perm ps ∧ r.length = min n ps.length ∧
+    r.Pairwise (fun a b => xorDist t a.2 ≤ xorDist t b.2) ∧
+    ∀ x ∈ r, ∀ y ∈ rest, xorDist t x.2 ≤ xorDist t y.2
+
+theorem take_mergeSort_nearest (t : Addr) (ps : List APeer) (n : Nat) :
+    NearestAscending t ps n ((ps.mergeSort (leAddr t)).take n) := by
+  have hs := leAddr_sorted t ps
+  have hp := List.mergeSort_perm ps (leAddr t)
+  refine ⟨(ps.mergeSort (leAddr t)).drop n, ?_, ?_, ?_, ?_⟩
+  · rw [List.take_append_drop]; exact hp
+  · rw [List.length_take, hp.length_eq]
+  · exact hs.sublist (List.take_sublist _ _)
+  · intro x hx y hy
+    rw [← List.take_append_drop n (ps.mergeSort (leAddr t)), List.pairwise_append] at hs
+    exact hs.2.2 x hx y hy
+
+/-- `sort_peers_by_key` over addresses: when it answers, the answer is the `min n |ps|` nearest peers in ascending XOR
+distance (`NearestAscending`: a permutation of `ps` splits into the answer and peers that are all at least as far), and
+at least `CLOSE_GROUP_SIZE` peers were known. (`List.replicate (min n |ps|) p` does not satisfy this: the answer and
+the rest together are a permutation of the input.) -/
 theorem sort_addr_spec (target : Addr) (ps : List APeer) (n : Nat) (r : List APeer)
     (h : sortPeersByKeyAddr target ps n = some r) :
-    r.length = min n ps.length ∧
-    r.Pairwise (fun a b => xorDist target a.2 ≤ xorDist target b.2) ∧
-    (∀ x ∈ r, x ∈ ps) ∧
-    (closeGroupSize ≤ ps.length) ∧ (n ≤ ps.length → r.length = n) := by
+    NearestAscending target ps n r ∧ closeGroupSize ≤ ps.length := by
   unfold sortPeersByKeyAddr at h
+  rw [sortedAddr_eq] at h
   split at h
   · cases h
-  · rename_i hlen
-    injection h with h
+  · injection h with h
     subst h
-    have hperm := List.mergeSort_perm (ps.map (fun p => (p, distSha target p.2))) (fun a b => decide (a.2 ≤ b.2))
-    have hsorted : ((ps.map (fun p => (p, distSha target p.2))).mergeSort (fun a b => decide (a.2 ≤ b.2))).Pairwise
-        (fun a b => a.2 ≤ b.2) := by
-      have := List.pairwise_mergeSort (le := fun (a b : APeer × Nat) => decide (a.2 ≤ b.2))
-        (fun a b c hab hbc => by simp at *; omega) (fun a b => by simp; omega)
-        (ps.map (fun p => (p, distSha target p.2)))
-      exact this.imp (fun h => by simpa using h)
-    have hmem : ∀ x ∈ (ps.map (fun p => (p, distSha target p.2))).mergeSort (fun a b => decide (a.2 ≤ b.2)),
-        x.1 ∈ ps ∧ x.2 = xorDist target x.1.2 := by
-      intro x hx
-      have := (hperm.mem_iff).1 hx
-      obtain ⟨p, hp, rfl⟩ := List.mem_map.1 this
-      exact ⟨hp, rfl⟩
-    have hlen' : (((ps.map (fun p => (p, distSha target p.2))).mergeSort (fun a b => decide (a.2 ≤ b.2))).map (·.1)).length
-        = ps.length := by
-      rw [List.length_map, hperm.length_eq, List.length_map]
-    refine ⟨by rw [List.length_take, hlen'], ?_, ?_, by omega, ?_⟩
-    · apply List.Pairwise.sublist (List.take_sublist _ _)
-      rw [List.pairwise_map]
-      refine hsorted.imp_of_mem ?_
-      intro a b ha hb hab
-      rw [← (hmem a ha).2, ← (hmem b hb).2]
-      exact hab
-    · intro x hx
-      have hx' := List.mem_of_mem_take hx
-      obtain ⟨y, hy, rfl⟩ := List.mem_map.1 hx'
-      exact (hmem y hy).1
-    · intro hn
-      rw [List.length_take, hlen']
-      omega
+    exact ⟨take_mergeSort_nearest target ps n, by omega⟩
+
+/-- `calculate_get_closest_peers` with a count only, over addresses: the `min n |ps|` nearest, ascending -/
+theorem closest_num_addr_spec (target : Addr) (ps : List APeer) (n : Nat) :
+    NearestAscending target ps n (calcClosestAddr target ps (some n) none) := by
+  show NearestAscending target ps n (List.take n _)
+  rw [sortedAddr_eq]
+  exact take_mergeSort_nearest target ps n
+
+/-! ### "Returns the requested number of nearest peers … or reports that too few are known" — FALSE of the code as worded
+(known finding K-c-count-guard)
+
+`sort_peers_by_key` guards on `CLOSE_GROUP_SIZE`, not on the requested count: with `CLOSE_GROUP_SIZE ≤ |ps| < n` it
+answers with fewer than `n` peers and no error (the client always asks for `CLOSE_GROUP_SIZE + CLOSE_GROUP_SIZE/2 = 7`);
+with `n ≤ |ps| < CLOSE_GROUP_SIZE` it reports `NotEnoughPeers` although the requested number is known.
+`calculate_get_closest_peers` has no way to report a shortfall at all. -/
+
+/-- the clause as worded, for one call of `sort_peers_by_key` -/
+def RequestedCountOrReported (ps : List Peer) (n : Nat) : Prop :=
+  match sortPeersByKey ps n with
+  | some r => r.length = n
+  | none => ps.length < n
+
+/-- the clause as worded, for every peer list and every requested count -/
+def ClosestSelectionAsWorded : Prop := ∀ ps n, RequestedCountOrReported ps n
+
+/-- five peers known, seven requested (what every client read and write does): five returned, nothing reported -/
+theorem short_answer_not_reported_witness :
+    sortPeersByKey [(1, 9), (2, 3), (3, 7), (4, 1), (5, 5)] 7 = some [(4, 1), (2, 3), (5, 5), (3, 7), (1, 9)] ∧
+    ¬ RequestedCountOrReported [(1, 9), (2, 3), (3, 7), (4, 1), (5, 5)] 7 := by
+  have h : sortPeersByKey [(1, 9), (2, 3), (3, 7), (4, 1), (5, 5)] 7
+      = some [(4, 1), (2, 3), (5, 5), (3, 7), (1, 9)] := by
+    simp [sortPeersByKey, closeGroupSize, sortByDist, List.mergeSort, leDist]
+  refine ⟨h, ?_⟩
+  unfold RequestedCountOrReported
+  rw [h]; decide
+
+/-- two peers known, two requested: `NotEnoughPeers` although the requested number is known -/
+theorem enough_known_but_reported_witness :
+    sortPeersByKey [(1, 9), (2, 3)] 2 = none ∧ ¬ RequestedCountOrReported [(1, 9), (2, 3)] 2 := by
+  have h : sortPeersByKey [(1, 9), (2, 3)] 2 = none := by decide
+  refine ⟨h, ?_⟩
+  unfold RequestedCountOrReported
+  rw [h]; decide
+
+theorem closest_selection_as_worded_false : ¬ ClosestSelectionAsWorded :=
+  fun h => short_answer_not_reported_witness.2 (h _ _)
+
+/-- the guard is the right one exactly when the request is for at least `CLOSE_GROUP_SIZE` peers and the number of
+known peers is not in the gap between `CLOSE_GROUP_SIZE` and the request -/
+def CountGuardAdequate (ps : List Peer) (n : Nat) : Prop :=
+  closeGroupSize ≤ n ∧ ¬ (closeGroupSize ≤ ps.length ∧ ps.length < n)
+
+theorem requested_count_or_reported_partial (ps : List Peer) (n : Nat) (hyp : CountGuardAdequate ps n) :
+    RequestedCountOrReported ps n := by
+  obtain ⟨h1, h2⟩ := hyp
+  unfold RequestedCountOrReported
+  cases h : sortPeersByKey ps n with
+  | none =>
+    have := (sort_err_iff_few ps n).1 h
+    show ps.length < n
+    omega
+  | some r =>
+    have hlen := (sort_is_closest_prefix ps n r h).1
+    have : ¬ ps.length < closeGroupSize := fun hc => by
+      rw [(sort_err_iff_few ps n).2 hc] at h; cases h
+    show r.length = n
+    omega
+
+/-- the client's selection (7 requested, own id removed): with 5 or 6 other peers known the answer is short and no error
+is raised -/
+theorem client_short_answer_witness :
+    closeGroupSelect [(0, 2), (1, 9), (2, 3), (3, 7), (4, 1), (5, 5)] 0 true
+      = some [(4, 1), (2, 3), (5, 5), (3, 7), (1, 9)] := by
+  simp [closeGroupSelect, clientStripsSelfBeforeSort, expandedCloseGroup, sortPeersByKey, closeGroupSize, sortByDist,
+    List.mergeSort, leDist]
+
+/-- `calculate_get_closest_peers` (count branch) as worded: the requested number (there is no error case) -/
+def ClosestNumReturnsRequested (ps : List Peer) (n : Nat) : Prop := (calcClosest ps (some n) none).length = n
+
+theorem closest_num_short_witness : ¬ ClosestNumReturnsRequested [(1, 9), (2, 3)] 5 := by
+  unfold ClosestNumReturnsRequested
+  rw [(closest_num_sorted_prefix _ _).2.1]; decide
+
+theorem closest_num_returns_requested_partial (ps : List Peer) (n : Nat) (hyp : n ≤ ps.length) :
+    ClosestNumReturnsRequested ps n := by
+  unfold ClosestNumReturnsRequested
+  rw [(closest_num_sorted_prefix ps n).2.1]; omega
 
 /-! ## The record store's closeness decisions on records (distance index, farthest record) -/
 
@@ -365,6 +510,17 @@ end SafeNet.Props.C11
 #print axioms SafeNet.Props.C11.inRange_addr_is_xor_filter
 #print axioms SafeNet.Props.C11.closest_range_addr_is_xor_filter
 #print axioms SafeNet.Props.C11.sort_addr_spec
+#print axioms SafeNet.Props.C11.sort_addr_is_sort_of_distances
+#print axioms SafeNet.Props.C11.inRange_addr_is_inRange_of_distances
+#print axioms SafeNet.Props.C11.closest_addr_is_closest_of_distances
+#print axioms SafeNet.Props.C11.closest_num_addr_spec
+#print axioms SafeNet.Props.C11.short_answer_not_reported_witness
+#print axioms SafeNet.Props.C11.enough_known_but_reported_witness
+#print axioms SafeNet.Props.C11.closest_selection_as_worded_false
+#print axioms SafeNet.Props.C11.requested_count_or_reported_partial
+#print axioms SafeNet.Props.C11.client_short_answer_witness
+#print axioms SafeNet.Props.C11.closest_num_short_witness
+#print axioms SafeNet.Props.C11.closest_num_returns_requested_partial
 #print axioms SafeNet.Props.C11.record_selection_is_by_xor_distance
 #print axioms SafeNet.Props.C11.fetch_order_is_by_distance
 #print axioms SafeNet.Props.C11.sort_sorted
